@@ -19,10 +19,11 @@ EXTENDS Integers, Sequences, FiniteSets, TLC, Json, IOUtils
 
 Trace == ndJsonDeserialize(IOEnv.TRACE)
 
-Replies == [Set   |-> {"ok", "hot", "toobig", "blocked"},
-            Del   |-> {"ok", "hot", "toobig", "blocked"},
+\* ioerr: the I/O fault the driver injected itself (a failed write or Close still has to return)
+Replies == [Set   |-> {"ok", "hot", "toobig", "blocked", "ioerr"},
+            Del   |-> {"ok", "hot", "toobig", "blocked", "ioerr"},
             Get   |-> {"value", "NOTFOUND"},
-            Close |-> {"ok"}]
+            Close |-> {"ok", "ioerr"}]
 
 VARIABLES l,        \* next trace line to explain
           pend      \* [op id -> [t, kind]] calls in flight
